@@ -23,7 +23,7 @@ from harness.common import (REPO, drain_failures, ensure_repo_on_path, install_f
 from harness.framework import Check
 
 PROP = "C07"
-FLAGS = ["q_par_crossfile_lost", "q_worker_swallows_errors"]
+FLAGS = ["q_par_crossfile_lost", "q_parent_evidence_raw_path", "q_worker_swallows_errors"]
 HEADER = ("From TL Require Import Lib.Base Lib.GenTypes Model.OrchParTypes Gen.OrchParGen Model.OrchPar Model.OrchParRun "
           "Actual.OrchParActual.\n")
 CORPUS = Path(__file__).resolve().parent.parent.parent / "corpus" / PROP
@@ -437,6 +437,28 @@ def run_impl(case: dict) -> dict:
                 return finalize(o)
             res["rep_full"], _ = _try(full)
             res["rep_full"] = res["rep_full"] or []
+            # which files an exclusion / ignore test on the path AS GIVEN lets through (what the parent's evidence loop of
+            # lint_files_parallel uses when the generated layer says parent_exclusion_like_lint_file = false), and the
+            # finalize() report over exactly those files
+            probe = fresh()
+
+            def seen(p):
+                try:
+                    return not (core._is_hardcoded_excluded(p) or probe.ignore_parser.is_ignored(p))
+                except Exception:  # noqa: BLE001
+                    return True
+            res["seen"] = [bool(seen(p)) for p in paths]
+            if all(res["seen"]):
+                res["rep_seen"] = res["rep_full"]
+            else:
+                def part():
+                    o = fresh()
+                    for p, ok in zip(paths, res["seen"]):
+                        if ok:
+                            o.lint_file(p)
+                    return finalize(o)
+                res["rep_seen"], _ = _try(part)
+                res["rep_seen"] = res["rep_seen"] or []
             res["failures"] = drain_failures()
             if case["via"] == "cli":
                 outs = []
@@ -534,12 +556,14 @@ def coq_case(case: dict, impl: dict) -> str:
     it = _Intern()
     perfile = coq.coq_list(["None" if vs is None else f"Some {_nats(it.ids(vs))}" for vs in impl["perfile"]])
     rep_nil, rep_full = _nats(it.ids(impl["rep_nil"])), _nats(it.ids(impl["rep_full"]))
+    rep_seen = _nats(it.ids(impl["rep_seen"]))
+    seen = coq.coq_list([coq.coq_bool(b) for b in impl["seen"]])
     seq = "None" if impl["seq"] is None else f"Some {_nats(it.ids(impl['seq']))}"
     par = "None" if impl["par"] is None else f"Some {_nats(it.ids(impl['par']))}"
     vtab = coq.coq_list([_coq_violation(v) for v in it.items])
     cmd = coq.coq_option(case.get("cmd"), coq.coq_string)
     return ("judge orchpar_actual {| c_vtab := " + vtab + ";\n c_perfile := " + perfile + "; c_rep_nil := " + rep_nil +
-            "; c_rep_full := " + rep_full + f"; c_mw := {coq.coq_option(case['k'])}; c_cpu := {impl['cpu']}; c_sched := {_nats(impl['sched'])}; "
+            "; c_rep_full := " + rep_full + "; c_seen := " + seen + "; c_rep_seen := " + rep_seen + f"; c_mw := {coq.coq_option(case['k'])}; c_cpu := {impl['cpu']}; c_sched := {_nats(impl['sched'])}; "
             f"c_ordered := {coq.coq_bool(impl['ordered'])}; c_cmd := {cmd}; c_seq := {seq}; c_par := {par}; "
             f"c_seq_exit := {impl['seq_exit']}; c_par_exit := {impl['par_exit']} |}}")
 
@@ -602,14 +626,15 @@ def py_actual_explains(case: dict, impl: dict) -> bool:
         return impl["seq"] is None
     n = len(impl["perfile"])
     eff = case["k"] or min(8, impl["cpu"])
+    raises = any(v is None for v in impl["perfile"])
     if n == 0:
         want = []
+    elif raises:
+        return False         # the repaired source raises in both modes: impl["par"] would be None
     elif n < 2 * eff:
-        if any(v is None for v in impl["perfile"]):
-            return False     # the fallback raises: impl["par"] would be None
         want = [v for vs in impl["perfile"] for v in vs] + impl["rep_full"]
     else:
-        want = [v for j in impl["sched"] for v in (impl["perfile"][j] or [])] + impl["rep_nil"]
+        want = [v for j in impl["sched"] for v in impl["perfile"][j]] + impl["rep_seen"]
     key = (lambda l: l) if impl["ordered"] else (lambda l: sorted(json.dumps(v) for v in l))
     return key(impl["par"]) == key(want)
 
@@ -708,6 +733,7 @@ def run(tier: str, seed: int, replay: str | None = None) -> int:
         chk.dist("files_vs_threshold:" + ("at" if n == 2 * eff else "above" if above else "below"))
         chk.dist("order:" + ("controlled" if impl["ordered"] else "uncontrolled"))
         chk.dist("crossfile_report:" + ("nonempty" if impl["rep_full"] else "empty"))
+        chk.dist("parent_loop_visits:" + ("all" if all(impl["seen"]) else "none" if not any(impl["seen"]) else "some"))
         chk.dist("config:" + ("invalid" if impl.get("errors") else "valid"))
         for rel in impl["files"]:
             chk.dist("ext:" + (Path(rel).suffix or Path(rel).name))
@@ -730,8 +756,9 @@ def run(tier: str, seed: int, replay: str | None = None) -> int:
         if dom and spec_ok != py_spec(impl):
             chk.broken.append("Oracle:the Coq judge and the direct comparison of the outputs disagree on whether parallel = sequential "
                               f"(case {case['i']})")
-        cand = [bool(b) for b in ver[4:8]]
-        err_explained = bool(ver[8]) if len(ver) > 8 else False
+        nc_ = 2 + len(FLAGS)
+        cand = [bool(b) for b in ver[4:4 + nc_]]
+        err_explained = bool(ver[4 + nc_]) if len(ver) > 4 + nc_ else False
         info = {"case": case, "observed": _summary(case, impl), "candidates_matching_impl": [nm for nm, ok in zip(names, cand) if ok]}
         if not dom:
             chk.violation({"reason": "a measured violation is not a well-formed Violation record (field list differs from src/core/types.py) "
@@ -743,7 +770,7 @@ def run(tier: str, seed: int, replay: str | None = None) -> int:
             # sequential raises, parallel returns: theorem C07_errors_swallowed.  What the parallel run returns in this class
             # has no sequential counterpart; when a file raises, the finalize() table cannot be measured, so a tree in which
             # only the cross-file defect is repaired is not matched output-for-output here.
-            chk.known_finding("q_worker_swallows_errors", info)
+            chk.known_finding("q_worker_swallows_errors", {k: v for k, v in info.items() if k != "reason"})
             continue
         cands_all = cand if cands_all is None else [a and b for a, b in zip(cands_all, cand)]
         if spec_ok:
@@ -754,7 +781,8 @@ def run(tier: str, seed: int, replay: str | None = None) -> int:
             relevant = list(FLAGS)
         if cand[0] and ideal_ok and relevant:
             for k in relevant:
-                chk.known_finding(k, info)
+                # (without "reason": for an entry recorded as fixed the framework supplies "recorded as fixed but observed again")
+                chk.known_finding(k, {kk: v for kk, v in info.items() if kk != "reason"})
         else:
             info["model_actual_matches_impl"] = cand[0]
             info["model_ideal_matches_spec"] = ideal_ok
